@@ -57,6 +57,16 @@ def cases(tier, seed):
                 continue
             out.append(dict(kind="statio", dim=2, n=r * r, b=1, nb=None, bb=None, box=box, method="grid", seed=sd + r, draws=1,
                             **(dict(boxy=BOXES[(bi + 1) % 4]) if r % 2 else {})))
+    # (a') generators built with the refinement (RAR) option: the rows that are not yet active are stored points of the domain too
+    # (a batch that does not divide the active count reaches into them)
+    for bi, box in enumerate(BOXES):
+        k = sd + 977 * bi
+        for (n, ns, b) in ((7, 3, 2), (6, 4, 3)):
+            out.append(dict(kind="ode", n=n, b=b, box=box, rar=True, nstart=ns, seed=k, draws=draws(ns, b) + 1))
+            out.append(dict(kind="statio", dim=2, n=n, b=b, nb=None, bb=None, box=box, boxy=BOXES[(bi + 1) % 4], rar=True, nstart=ns, seed=k,
+                            draws=draws(ns, b) + 1))
+            out.append(dict(kind="nonstatio", dim=1, n=n, b=b, nb=None, bb=None, nt=n, bt=b, box=box, tbox=BOXES[(bi + 2) % 4], rar=True, nstart=ns,
+                            ntstart=ns, seed=k, draws=draws(ns, b) + 1))
     # (c) uniform sampling, larger stores, many keys: closed box membership + counts
     for ki in range(nkeys * 2):
         for bi, box in enumerate(BOXES):
